@@ -568,6 +568,9 @@ def padding_rule(ctx, R):
 def run(ctx):
     ctx.rule('R16.4', 'packing (one clause): a partially filled lane buffer is reset to zeros inside the block loop')
     ctx.evaluated('R16.4', padding_rule(ctx, 'R16.4'), 3)
+    import misclib
+    ctx.rule('R16.5', 'packing: the owned conversion Vec<f32> -> Feature delegates to the borrowed packer')
+    ctx.evaluated('R16.5', misclib.rule_owned_packer_delegates(ctx, 'R16.5'), 1)
     ctx.rule('R16.1', 'Feature -> Vec<f32>: the 8 lanes of every block, in order, over the whole feature')
     ctx.floor('R16.1', unpack_rule(ctx, 'R16.1'), 3)
     ctx.rule('R16.2', 'euclidean = sqrt(sum over the common prefix of reduce_add((a_k - b_k)^2)), blocks paired by position')
